@@ -268,10 +268,15 @@ def run(ctx):
         half, mid, rest = interrupted(obj, n1)
         tr.append(dict(op='indices', n=n1, r=mid))
         tr.append(dict(op='gen_indices', n=n1, r=half + rest))
-        for n in lens:
+        # every length is asked about twice (the same selector is applied to frame arrays of the same length again and again),
+        # and the caller uses up the list it was given: what a call returns belongs to the caller
+        for n in lens + lens[:2]:
             for op in rng.sample(['indices', 'gen_indices', 'count', 'first'], 4):
                 if op == 'indices':
-                    r = obj.indices(n)
+                    given = obj.indices(n)
+                    r = list(given)
+                    if isinstance(given, list):
+                        rng.choice([given.clear, given.reverse, lambda g_=given: g_.append(-7), lambda g_=given: g_ and g_.pop()])()
                 elif op == 'gen_indices':
                     r = list(obj.gen_indices(n))
                 elif op == 'count':
